@@ -28,7 +28,11 @@ def write(ctx, wall_s, n_unmatched, n_known, bykey):
         cov.setdefault("traces_validated_against_impl", cov.get("transitions", 0))
     ev = dict(property_id=ctx.pid, tier=ctx.tier, seed=int(ctx.seed), level=ctx.level, coverage=cov,
               assumptions=ctx.assumptions, wall_s=round(float(wall_s), 3), violations=int(n_unmatched))
-    path = os.path.join(ROOT, "evidence", "%s.json" % ctx.pid)
+    evdir = os.path.join(ROOT, "evidence")
+    if os.path.realpath(os.environ.get("VERIF_REPO", "/repo")) != "/repo":
+        # a run against a scratch copy (mutation driver) must never overwrite the evidence of the real tree
+        evdir = os.environ.get("VERIF_EVIDENCE_DIR", "/tmp/desolver-verif-evidence")
+    path = os.path.join(evdir, "%s.json" % ctx.pid)
     os.makedirs(os.path.dirname(path), exist_ok=True)
     tmp = path + ".tmp"
     with open(tmp, "w") as fh:
